@@ -51,6 +51,29 @@ ASSUMPTIONS = [
 ]
 
 
+def _abstract_base(repo, ci):
+    """the class has subclasses in the package and the package never instantiates it (no call of
+    its name, no mention of it besides base-class lists and isinstance tests)"""
+    if not [c for c in repo.subclasses(ci.name) if c is not ci]:
+        return False
+    for info in repo.modules.values():
+        par = {}
+        for pn in ast.walk(info['tree']):
+            for c in ast.iter_child_nodes(pn):
+                par[id(c)] = pn
+        for n in ast.walk(info['tree']):
+            if isinstance(n, ast.Name) and n.id == ci.name and isinstance(n.ctx, ast.Load):
+                pp = par.get(id(n))
+                if isinstance(pp, ast.ClassDef) and n in pp.bases:
+                    continue
+                if isinstance(pp, ast.Call) and call_name(pp) == 'isinstance':
+                    continue
+                if isinstance(pp, ast.Attribute) and pp.value is n:
+                    continue        # Base.method(self, ...)
+                return False
+    return True
+
+
 def check_pairs(ctx):
     """R1: dispatch every co-installed (unpack, pack) pair to the rule of its field class"""
     repo = ctx.repo
@@ -63,6 +86,9 @@ def check_pairs(ctx):
         ctx.unit('strategy_pairs')
         name = ci.name
         label = '%s: (%s, %s)' % (name, up.qual if up else None, pk.qual if pk else None)
+        if (up is None or pk is None or is_placeholder(up) or is_placeholder(pk)) and _abstract_base(repo, ci):
+            ctx.holds('R1-pair-installed', (ci.file, name), label, 'an intermediate base class that is never instantiated: judged through the classes derived from it', ci.node.lineno, clause='2')
+            continue
         if up is None or pk is None or is_placeholder(up) or is_placeholder(pk):
             ctx.violation('R1-pair-installed', (ci.file, name), label, 'a _compile path leaves a placeholder behind .pack / .unpack: the field cannot be parsed or serialized', ci.node.lineno, clause='2')
             continue
